@@ -11,3 +11,6 @@ func verifDeflate(b []byte) []byte
 
 // verifSignedBy reports whether el carries an enveloped signature over itself that verifies under test certificate (kind,id).
 func verifSignedBy(el *etree.Element, kind int, id int) bool
+
+// verifParseAssertionBytes parses serialised XML and returns its root element (nil if it does not parse).
+func verifParseAssertionBytes(b []byte) *etree.Element
